@@ -43,7 +43,9 @@ def c07a(tree, ob):
     partial = [h for h in handlers if any(nm and nm.endswith('VerifyError') for nm in handler_names(h))]
     ph = one(partial, 'VerifyError (partial message) handler', ob)
     msgr = tree.klass(SESS, 'Messenger')
-    drops = [st for (f, st, k, v) in stores_to_self_attr(msgr, '__rx_buf') if f is func and k == 'assign']
+    # (a reset to b'' once the connection is closed is not a consume: judged by C01.b)
+    drops = [st for (f, st, k, v) in stores_to_self_attr(msgr, '__rx_buf') if f is func and k == 'assign'
+             and not (isinstance(v, ast.Constant) and v.value == b'' and fv.has(st, 'self.get_app_socket() is None', True))]
     ob.require(drops, 'no consume of the receive buffer')
     acts = method_calls(func, 'recv_message', 'self')
     act = one(acts, 'recv_message dispatch', ob)
